@@ -1,6 +1,7 @@
 package types
 
 import (
+	"errors"
 	"fmt"
 	"math/rand"
 	"strings"
@@ -8,6 +9,7 @@ import (
 
 	"github.com/onflow/cadence"
 	"github.com/onflow/cadence/common"
+	cdcerrors "github.com/onflow/cadence/errors"
 	"github.com/onflow/cadence/interpreter"
 	"github.com/onflow/cadence/runtime"
 	"github.com/onflow/cadence/sema"
@@ -55,22 +57,30 @@ func nontrivialType(t sema.Type) bool {
 	})
 }
 
-// knownFT4: runtime.ImportType has no case for *cadence.AttachmentType and
-// *cadence.FunctionType and panics with a plain string (surfacing as an internal
-// error when such a type value is passed as a script/transaction argument).
-var knownFT4 bool
-
-// ft4: the exported type contains an attachment type or a function type.
-func ft4(t sema.Type) bool {
+// notImportable: function types (and types containing them) are not importable
+// by design: ImportType may refuse them, but only with a cadence *user* error
+// (FT4, fixed: it used to panic with a plain string, i.e. an internal error, and
+// also refused attachment types, which must now round-trip).
+func notImportable(t sema.Type) bool {
 	return tgen.Has(t, func(x sema.Type) bool {
-		switch x := x.(type) {
-		case *sema.FunctionType:
-			return true
-		case *sema.CompositeType:
-			return x.Kind == common.CompositeKindAttachment
-		}
-		return false
+		_, ok := x.(*sema.FunctionType)
+		return ok
 	})
+}
+
+// importType calls runtime.ImportType and classifies a panic: userErr is true
+// when the panic value is an error implementing errors.UserError.
+func importType(ex cadence.Type) (im interpreter.StaticType, panicked any, userErr bool) {
+	defer func() {
+		if r := recover(); r != nil {
+			panicked = r
+			if e, ok := r.(error); ok {
+				var ue cdcerrors.UserError
+				userErr = errors.As(e, &ue)
+			}
+		}
+	}()
+	return runtime.ImportType(nil, ex), nil, false
 }
 
 // typeProblem checks one type; "" when everything in the statement holds.
@@ -121,15 +131,24 @@ func (c *c45) typeProblem(u *tgen.Universe, t sema.Type) string {
 				return
 			}
 			c.rec.Class("exported")
-			if knownFT4 && ft4(t) {
-				c.rec.Excluded("FT4")
-			} else {
-				im := runtime.ImportType(nil, ex)
-				if !im.Equal(st) || string(im.ID()) != want {
-					problem = fmt.Sprintf("ImportType(ExportType(t)) = %q is not Equal to the static type", im.ID())
-					return
-				}
+			im, panicked, userErr := importType(ex)
+			switch {
+			case panicked != nil && notImportable(t) && userErr:
+				c.rec.Class("import-not-supported")
+			case panicked != nil:
+				problem = fmt.Sprintf("ImportType(ExportType(t)) panicked with %T %v (user error: %v)", panicked, panicked, userErr)
+				return
+			case im == nil || !im.Equal(st) || string(im.ID()) != want:
+				problem = fmt.Sprintf("ImportType(ExportType(t)) = %v is not Equal to the static type", im)
+				return
+			default:
 				c.rec.Class("imported")
+				if tgen.Has(t, func(x sema.Type) bool {
+					cc, ok := x.(*sema.CompositeType)
+					return ok && cc.Kind == common.CompositeKindAttachment
+				}) {
+					c.rec.Class("imported-attachment")
+				}
 			}
 		}
 		// nominal components decode to what they were built from
@@ -555,11 +574,13 @@ func TestC45(t *testing.T) {
 		rec.ReportKnown("FT3", qid != "S")
 		knownFT3 = true
 	}
-	if rec.Known("FT4") {
-		at := tgen.NewUniverse(0).StructAttachments[0]
-		p := guard(func() { runtime.ImportType(nil, runtime.ExportType(at, map[sema.TypeID]cadence.Type{})) })
-		rec.ReportKnown("FT4", p != "")
-		knownFT4 = true
+	// regression inputs of the fixed finding FT4: attachment types must round-trip
+	// through ExportType/ImportType, a function type may only be refused with a user error
+	if evid.ReplayFile() == "" {
+		u0 := tgen.NewUniverse(0)
+		c.checkType(u0, u0.StructAttachments[0])
+		c.checkType(u0, sema.NewReferenceType(nil, sema.UnauthorizedAccess, u0.ResourceAttachments[0]))
+		c.checkType(u0, sema.NewSimpleFunctionType(sema.FunctionPurityImpure, nil, sema.VoidTypeAnnotation))
 	}
 
 	if f := evid.ReplayFile(); f != "" {
@@ -605,7 +626,7 @@ func TestC45(t *testing.T) {
 			c.scriptBatch(su, types)
 		}
 	}
-	requireClasses(t, rec, "exported", "imported", "location:address", "location:string", "location:identifier", "location:transaction", "location:script",
+	requireClasses(t, rec, "exported", "imported", "imported-attachment", "import-not-supported", "location:address", "location:string", "location:identifier", "location:transaction", "location:script",
 		"location:repl", "constructor:OptionalType", "constructor:VariableSizedArrayType", "constructor:ConstantSizedArrayType", "constructor:DictionaryType",
 		"constructor:ReferenceType", "constructor:CompositeType", "constructor:IntersectionType", "constructor:CapabilityType", "constructor:FunctionType",
 		"constructor:InclusiveRangeType", "has-authorization", "has-intersection", "has-disjunction")
